@@ -75,6 +75,9 @@ OPS = [
     ["N = labels(x)", "mon.write(N[0])", "mon.write(N[-1])"],
     ['N.append("q")', "mon.write(N[-1])", "mon.write(len(N))"],
     ["NN = N", "mon.write(NN[1])", 'N = ["r", "s"]', "mon.write(NN[1])"],
+    # characters of a string by (negative) index
+    ["mon.write(s[-1])", "mon.write(s[0])"],
+    ["mon.write(s[len(s) - 1])", "mon.write(s[-len(s)])", "ch = s[-1]", "mon.write(ch)"],
 ]
 DEFS = ["def mk(n):", "    return [n, n + 1]", "def labels(n):", '    return ["a" + str(n), "b", "c"]']
 CORE = [0, 2, 3, 5, 9, 10, 11, 12, 13]
